@@ -125,10 +125,10 @@ inline void blk_free(void *p, size_t bytes, int fam) {
 }
 
 // realloc in the basic (byte) form: always moves, poisons the old block
-inline void *blk_realloc_bytes(void *p, size_t oldBytes, size_t newBytes, int fam, size_t keepBytes) {
+inline void *blk_realloc_bytes(void *p, size_t oldBytes, size_t newBytes, int fam, size_t keepBytes, int relocatable = -1) {
   ++g_n_realloc;
   if (g_monitor_depth == 0) ++g_alloc_requests;
-  if (!g_elem_relocatable) {
+  if (relocatable == 0 || (relocatable < 0 && !g_elem_relocatable)) {
     violation("C06", "alloc.realloc_non_relocatable", "allocator reallocate() used for an element type that is not trivially relocatable");
   }
   {
@@ -205,6 +205,13 @@ struct ExactAlloc {
   bool operator!=(const ExactAlloc<U, FAM> &) const noexcept { return false; }
 };
 
+// What the harness knows about the relocatability of T (independent of amc's trait): -1 = use the engine-wide flag (T is the element type),
+// specialised by the nested-container configurations for container types used as elements.
+template <class T>
+struct HarnessReloc {
+  static int get() { return -1; }
+};
+
 // ---- standard allocator that offers reallocate(p, oldCapa, newCapa, nConstructed)
 template <class T>
 struct ReallocAlloc {
@@ -236,7 +243,7 @@ struct ReallocAlloc {
       nConstructed = oldCapa;
     }
     // transfers exactly nConstructed elements; the rest of the new block stays 0xA5
-    return static_cast<T *>(blk_realloc_bytes(p, oldCapa * sizeof(T), newCapa * sizeof(T), FAM_REALLOC, nConstructed * sizeof(T)));
+    return static_cast<T *>(blk_realloc_bytes(p, oldCapa * sizeof(T), newCapa * sizeof(T), FAM_REALLOC, nConstructed * sizeof(T), HarnessReloc<T>::get()));
   }
   template <class U>
   bool operator==(const ReallocAlloc<U> &) const noexcept { return true; }
